@@ -15,6 +15,30 @@ HOOK_COMMITS = ["0629e56", "a0e4ab0"]
 NOT_YET = {}
 
 PROPS = {
+    "C02": {
+        "suites": [{"name": "mixer", "quick": 2500, "thorough": 100000}],
+        "level_text": "Lean theorems about the imperative model of Renderer/Mixer/Track/SendTrack/MainTrack::process (shared temp "
+                      "buffers, in-place accumulation, early return of paused tracks, send inputs), for ALL track trees, effect chains, "
+                      "route tables, parameter states, buffer and callback sizes, with sounds/effects as arbitrary state-passing components: "
+                      "the mixer equals the closed recursive signal-flow specification (y_t = g_t.S_t(E_t(sum children + sum sounds)), sends "
+                      "fed post-fader times route volume, out = m.M(sum tracks + sum sends + main sounds)); every scratch/input buffer is "
+                      "all-zero whenever it is handed on (invariant of process, on_start_processing and every handle operation); paused / "
+                      "unrouted / missing-send branches contribute exactly 0; every sound and effect of a playing mixer is asked for exactly the "
+                      "chunk lengths [ibs,..,ibs,rest] per callback (each <= ibs, summing to the callback length); the device buffer is the "
+                      "concatenation of chunk conversions and the final stage clamps to [-1,1], mono = mean, extra channels 0. The same "
+                      "definitions run as a Float twin and agree bit-for-bit with kira (public API, probe backend/sounds/effects) on every "
+                      "output sample, probe call log, handle state and resource count of every generated history",
+        "level_note": "buffer-handling theorems hold for every number type (also the Float twin); the 'sum' statements are over the reals "
+                      "(float addition order is mirrored by the twin, not reordered); sounds/effects/spatialiser are abstract components "
+                      "assumed only not to resize the slice they are lent; each-frame-once is stated for mixers whose tracks are all playing "
+                      "(a non-advancing track is asked for nothing: C12); implementation-side metamorphic oracles: superposition on exactly "
+                      "representable signals, exact silence when all sources are finished/frozen/removed, probe-log shape, channel layout",
+        "assumptions": [
+            "a sound/effect returns a slice as long as the one it was lent (guaranteed by Rust's &mut [Frame])",
+            "device buffer length is a multiple of the channel count; internal buffer size and channel count >= 1 (0 is the modelled chunks_mut(0) panic)",
+            "send-track routes of one track name distinct send tracks (HashMap keys), so their iteration order is irrelevant",
+        ],
+    },
     "C06": {
         "suites": [{"name": "param", "quick": 1500, "thorough": 60000}],
         "level_text": "Lean theorems about the model of parameter.rs over the reals: closed form "
